@@ -144,6 +144,13 @@ func run(c *vf.Ctx) {
 			// ---- mode C: pure in-memory
 			outC, err := env.Run("main", "main", "main.gno", pureSource(ops), 500_000_000)
 			if err != nil {
+				if strings.Contains(err.Error(), "division by zero") {
+					// the store realm's own Reslice/Window take an index modulo a length that an earlier
+					// op of this sequence made zero: the program panics by itself, on a chain that tx
+					// would fail and the rest continue, so the sequence has no in-memory counterpart
+					c.Count("sequences_discarded_program_panics_by_itself", 1)
+					continue
+				}
 				c.Violation("pure-run-error", w, "sequence %d: pure in-memory run failed: %v", seqID, err)
 				continue
 			}
